@@ -233,3 +233,18 @@ META["C12"] = {
         "a combined relative error within 1e-5 relative of the target, or an undefined combination (zero variance, no contributing result) with a positive target, leaves the decision open and both answers are accepted; with target zero the run must always perform all iterations",
     ],
 }
+
+META["C01"] = {
+    "level": "exploration",
+    "parts": 3,
+    "tiers": {
+        "quick": {"shards": 3, "deadline_s": 400,
+                  "bounds": "PLAIN d<=3, lattices 1,2,4,6 per dimension; VEGAS B in {2,3,4,5,8}: uniform, all strictly increasing eighth-lattice grids (B<=4) and all grids reached by BFS over real adaptation (4 adapting integrands x alpha in {0,0.5,1.5,3}, depth 3), lattices B x {1,2,3}, d=1 all grids, d=2 products of a subset; MULTI-CHANNEL C<=3 channels with splits 1/4,1/2,3/4: every composition of 8 into weights incl. zeros (sentinel density 1e30 in disabled channels), normalised / through the checkpoint constructor / unnormalised x3, jacobian in {1,2,1/4,1+y}, d<=2, lattice 12^d x 8; adapted weights reached by BFS over real refinement (3 integrands x beta x min, depth 3) in stratified form; all multilinear integrands over {1, y, 2-3y, -1+4y}; 3 types"},
+        "thorough": {"shards": 3, "deadline_s": 1800, "bounds": "as quick with adaptation depth 5 (grids) / 4 (weights), d=3 VEGAS products and eighth-split channel maps on an 840-point lattice"},
+    },
+    "rule": "nested enumeration of (grid | weight vector, lattice, integrand); the lattice engine makes one iteration visit every cell of the discretised cube (and every eighth of the channel-selection interval) exactly once; non-trivial = non-uniform grid, zero weight or non-unit jacobian; distinct = distinct cases; states/transitions count the adaptation BFS that produces the reachable grids and weights",
+    "assumptions": [
+        "integrands are multilinear (with the jacobian 1+y: constant in that coordinate) and channel maps piecewise linear, the class the composite midpoint rule integrates exactly",
+        "tolerance 64 (d+B) eps x magnitude of the integrand; lattice midpoints that are not dyadic are rounded to 2^-64",
+    ],
+}
